@@ -75,12 +75,13 @@ def run_replay(name, rust_src, release=False, timeout=1500, rustflags=None):
         r = subprocess.run(cmd, cwd=CRATE, env=env, capture_output=True, text=True, timeout=timeout)
     except subprocess.TimeoutExpired:
         return dict(reproduced=None, path=keep, output='replay build/run timed out', wall_s=time.time() - t0)
-    out = r.stdout + '\n' + r.stderr
+    # the test's own output (stdout) last and never crowded out by compiler warnings of a first build (stderr)
+    out = r.stderr[-6000:] + '\n' + r.stdout[-6000:]
     if 'error: could not compile' in out or 'error[E' in out:
-        return dict(reproduced=None, path=keep, output='replay test does not compile:\n' + out[-3000:], wall_s=time.time() - t0)
+        return dict(reproduced=None, path=keep, output='replay test does not compile:\n' + r.stderr[-3000:], wall_s=time.time() - t0)
     m = re.search(r'test result: (\w+)\. (\d+) passed; (\d+) failed', out)
     if not m:
         # the process may have aborted (panic = abort in a dependency profile) -> treat as failure of the test
         repro = r.returncode != 0 and ('panicked at' in out or 'SIGABRT' in out or 'process abort' in out)
-        return dict(reproduced=True if repro else None, path=keep, output=out[-3000:], wall_s=time.time() - t0)
-    return dict(reproduced=int(m.group(3)) > 0, path=keep, output=out[-3000:], wall_s=time.time() - t0)
+        return dict(reproduced=True if repro else None, path=keep, output=out[-8000:], wall_s=time.time() - t0)
+    return dict(reproduced=int(m.group(3)) > 0, path=keep, output=out[-8000:], wall_s=time.time() - t0)
